@@ -58,7 +58,9 @@ def _case(draw, tier):
         fmts[1] += "2"
     return {"cfgs": [draw(_cfg()), draw(_cfg())], "ids": ids, "fmts": fmts,
             "contents": [draw(gen.contents(max_small=32)), draw(gen.contents(max_small=32, big=False))],
-            "order": draw(st.sampled_from([[0, 1], [1, 0]]))}
+            "order": draw(st.sampled_from([[0, 1], [1, 0]])),
+            # one case in six: the surviving pid is also the path of an existing regular file
+            "filepid": draw(st.integers(0, 5)) == 0}
 
 
 def strategy(tier):
@@ -105,6 +107,9 @@ def run_case(case, ctx):
     # one generated case into the next (a failure must reproduce from its own replay file)
     _RUN[0] += 1
     ids = [s + f"~{_RUN[0]}" for s in case["ids"]]
+    if case.get("filepid"):
+        ids[1] = common.write_file(os.path.join(work, f"pid-as-path~{_RUN[0]}"), b"some file the pid happens to name\n")
+        ctx.classify("pid-names-an-existing-file")
     fmts = case["fmts"]
     X, Y = [common.make_content(c) for c in case["contents"]]
     if X == Y:
